@@ -73,7 +73,7 @@ def findIdxFrom {α : Type} (p : α → Bool) : Nat → List α → Option Nat
 def lookupByValue (env : Env) (c : Nat) (d : Val) : Option Val :=
   match env.cls c with
   | some ci =>
-    match findIdxFrom (fun m => Val.pyEq m.2 d) 0 ci.members with
+    match findIdxFrom (fun m => (pyEq? env m.2 d).getD false) 0 ci.members with
     | some i => some (.member c i)
     | none => none
   | none => none
@@ -173,11 +173,17 @@ def um (env : Env) (L : Leaves) : Nat → Ty → Val → R Val
       | _ => .error .value
     | .any => .ok v
     | .literal vs =>
-      if Val.pyMem v vs then .ok v
-      else
+      match pyMem? env v vs with
+      | none => .error .unsupported
+      | some true => .ok v
+      | some false =>
         match load env L v with
         | .error er => .error er
-        | .ok d => if Val.pyMem d vs then .ok d else .error .value
+        | .ok d =>
+          match pyMem? env d vs with
+          | none => .error .unsupported
+          | some true => .ok d
+          | some false => .error .value
     | .enum c => umEnum env L c v
     | .coll k e =>
       match (load env L v).bind (itervalues env) with
@@ -239,7 +245,7 @@ def mar (env : Env) (L : Leaves) : Nat → Ty → Val → R Val
     | .scalar s => L.mar s v
     | .none => .ok v
     | .any => .ok v
-    | .literal vs => if Val.pyMem v vs then .ok v else .error .value
+    | .literal vs => if Val.exactMem v vs then .ok v else .error .value
     | .enum _ =>
       match v with
       | .member c' i =>
